@@ -42,6 +42,43 @@ def _null_side(e, truth, names):
     return False
 
 
+def _nn_step(fn_locals, node, nn):
+    """Locals known to be non-NULL after executing node, given the set known before it."""
+    out = set(nn)
+    if node.kind == 'decl' and node.decl is not None:
+        out.discard(node.decl['n'])
+        if 'init' in node.decl and expr_str(strip_casts(node.decl['init'])) in nn:
+            out.add(node.decl['n'])
+        return frozenset(out)
+    if node.expr is None:
+        return nn
+    for x in walk(node.expr):
+        if x.get('k') == 'bin' and x['op'] in ASSIGN_OPS and is_ref(x['l']):
+            l = strip_casts(x['l'])
+            if l.get('dk') not in ('local', 'param'):
+                continue
+            if x['op'] == '=' and expr_str(strip_casts(x['r'])) in nn:
+                out.add(l['n'])
+            else:
+                out.discard(l['n'])
+        elif x.get('k') == 'un' and x['op'] in ('post++', 'post--', 'pre++', 'pre--', '&') and is_ref(x['e']):
+            out.discard(strip_casts(x['e'])['n'])
+    return frozenset(out)
+
+
+def _nonnull_name(e, truth):
+    """Name of the local that the edge (e evaluated to truth) shows to be non-NULL, if any."""
+    e = strip_casts(e)
+    if e.get('k') == 'bin' and e['op'] in ('==', '!='):
+        other = e['l'] if is_null_const(e['r']) else (e['r'] if is_null_const(e['l']) else None)
+        if other is not None and is_ref(other) and (e['op'] == '!=') == truth:
+            return strip_casts(other)['n']
+        return None
+    if is_ref(e) and truth:
+        return e['n']
+    return None
+
+
 def lst1(units, R):
     """Every path through a store X->child = V (V not a null constant) also passes a store to V->prev or
     X->child->prev (the first child's back link designates the last child), unless the path establishes that the
@@ -98,25 +135,35 @@ def lst1(units, R):
                             expr_str(strip_casts(c['args'][0])) == X:
                         P.add(nd.id)
             names = {Vs, xchild, X}
+            # forward, locals known to be non-NULL are tracked along the path: the new child itself (paths on which it
+            # is NULL are exempt), copies of it, and locals tested on the way (`p = n; ... if (p != NULL)`)
+            nn0 = frozenset({V['n']}) if V.get('k') == 'ref' else frozenset()
 
             def reach(start, forward):
-                # states (node, valid): valid = the variables of V have not been re-assigned since/before S
-                seen = {(start, True)}
-                work = [(start, True)]
+                # states (node, valid, nn): valid = the variables of V have not been re-assigned since/before S
+                seen = {(start, True, nn0 if forward else frozenset())}
+                work = list(seen)
                 adj = cfg.succ if forward else cfg.pred
                 while work:
-                    x, valid = work.pop()
+                    x, valid, nn = work.pop()
+                    nn_out = _nn_step(None, cfg.nodes[x], nn) if forward else nn
                     for (y, lab) in adj[x]:
-                        if lab is not None and lab[0] in ('T', 'F') and _null_side(lab[1], lab[0] == 'T', names):
-                            continue
+                        nn2 = nn_out
+                        if lab is not None and lab[0] in ('T', 'F'):
+                            if _null_side(lab[1], lab[0] == 'T', names | nn_out):
+                                continue
+                            if forward:
+                                nm = _nonnull_name(lab[1], lab[0] == 'T')
+                                if nm is not None:
+                                    nn2 = nn_out | {nm}
                         v2 = valid and y not in K
                         if y in P or (y in PV and valid and y not in K):
                             continue
-                        if (y, v2) in seen:
+                        if (y, v2, nn2) in seen:
                             continue
-                        seen.add((y, v2))
-                        work.append((y, v2))
-                return {n for (n, _v) in seen}
+                        seen.add((y, v2, nn2))
+                        work.append((y, v2, nn2))
+                return {n for (n, _v, _n) in seen}
             if S in P or S in PV:
                 ok = True
             else:
@@ -250,4 +297,4 @@ def lst5(units, R):
             if callee_name(c) == 'sort_list' and f2.name not in ('sort_list', 'sort_object'):
                 R.ob('LST5', f2, c, 'sort_list called outside sort_object', False,
                      'the caller must restore child->prev itself', key='direct-sort')
-    R.floor('LST5', 'stores and calls in sort_list', n, 12)
+    R.floor('LST5', 'stores and calls in sort_list', n, 6)
